@@ -12,7 +12,7 @@ def scenarios(ctx, rng):
     cases = []
     n = 36 if ctx.tier == "quick" else 900
     kinds = ["basic", "update_upstream", "update_listen", "traffic_in_flight", "parked_then_half_close", "stop_during_dial", "reset_enables",
-             "populate_replace", "many_connections"]
+             "populate_replace", "many_connections", "populate_replace_disabled"]
     for i in range(n):
         g = i % 6
         b = T.port_base(g)
@@ -119,6 +119,15 @@ def scenarios(ctx, rng):
             add({"op": "recv", "id": "c1", "up": "s1", "n": 1, "ms": 2000}, ("ended",))
             add({"op": "recv", "id": "s1", "up": "c1", "n": 1, "ms": 2000}, ("ended",))
             connect("c2", "s2", up="u2")
+        elif kind == "populate_replace_disabled":
+            # replaced by an entry that differs and is NOT to be started: the old proxy is down all the same
+            connect("c1", "s1")
+            add(T.api("POST", "/populate", [{"name": "p", "listen": rng.choice([A1, A2]), "upstream": U2, "enabled": False}]), ("status", 201))
+            add({"op": "recv", "id": "c1", "up": "s1", "n": 1, "ms": 2000}, ("ended",))
+            add({"op": "recv", "id": "s1", "up": "c1", "n": 1, "ms": 2000}, ("ended",))
+            add({"op": "dial", "id": "cx", "addr": A1}, ("dial_refused",))
+            add(T.api("DELETE", "/proxies/p"), ("status", 204))
+            add({"op": "bindcheck", "port": px}, ("ok",))
         cases.append({"ops": ops, "exp": exp, "group": g, "kind": kind, "how": how})
     return cases
 
